@@ -5,7 +5,15 @@ WT=$1; MD=$2; CR=$3; DEMO=$4; TN=$5
 cd $WT || exit 9
 git checkout -q -- crates; rm -f crates/$CR/tests/$TN.rs
 git apply $MD/patch.diff || { echo "PATCH-FAILS"; exit 9; }
-cargo test -p $CR --offline > /tmp/confirm.$$.log 2>&1; r1=$?
+cargo test -p $CR --offline --no-fail-fast > /tmp/confirm.$$.log 2>&1; r1=$?
+if [ $r1 -ne 0 ]; then
+  # timing-based tests flake on a loaded machine: re-run each failed test on its own, up to 3 times
+  r1=0
+  for t in $(grep -E "^test .* \.\.\. FAILED" /tmp/confirm.$$.log | awk '{print $2}' | sort -u); do
+    ok=1; for k in 1 2 3; do cargo test -p $CR --offline $t > /tmp/confirm.$$.retry.log 2>&1 && { ok=0; break; }; done
+    echo "  retried $t -> $([ $ok -eq 0 ] && echo pass || echo FAIL)"; [ $ok -ne 0 ] && r1=101
+  done
+fi
 cp $DEMO crates/$CR/tests/$TN.rs
 cargo test -p $CR --offline --test $TN > /tmp/confirm.$$.demo1.log 2>&1; r2=$?
 git checkout -q -- crates
